@@ -237,6 +237,12 @@ def select_cases(draw):
         size = subaps * k
     else:
         size = draw(st.integers(subaps, 40))
+    if draw(st.integers(0, 5)) == 0:
+        # more sub-apertures than pixels across the mask (an oversampled grid on a coarse mask): cells whose rounded bounds
+        # coincide contain no pixel, have no mean and are never selected; the others are selected by their mean as always
+        subaps = draw(st.integers(2, 12))
+        size = draw(st.integers(1, subaps - 1))
+        divisible = False
     kind = draw(st.sampled_from(["circle", "annulus", "rand01", "frac", "ones"]))
     if kind in ("circle", "annulus"):
         r = draw(st.floats(0.5, size / 2.0 + 1))
@@ -319,8 +325,13 @@ def select_body(ctx, case):
     if case.get("t_as") == "numpy":
         t = np.float64(t)              # e.g. an element of an array of thresholds
     maskc = mask.copy()
-    coords, fills = wfslib.findActiveSubaps(subaps, maskc, t, returnFill=True)
-    coords_only = wfslib.findActiveSubaps(subaps, maskc, t)
+    import warnings as _w
+    with _w.catch_warnings():
+        _w.simplefilter("ignore")           # the mean of a pixel-less cell warns (size < subaps); what is decided is the selection
+        coords, fills = wfslib.findActiveSubaps(subaps, maskc, t, returnFill=True)
+        coords_only = wfslib.findActiveSubaps(subaps, maskc, t)
+    if size < subaps:
+        ctx.classes["more_subaps_than_pixels"] += 1
     ctx.case({"subaps": subaps, "mask": mask, "t": t}, nontrivial=bool((divisible and case["tmode"] == "attained") or not divisible),
              classes=["divisible" if divisible else "non_divisible", "t_" + case["tmode"], "mask_" + str(mask.dtype), "threshold_" + case.get("t_as", "python")])
     ctx.equal(maskc, mask, "findActiveSubaps modified the mask")
@@ -360,24 +371,32 @@ def select_body(ctx, case):
         for x in range(subaps):
             for y in range(subaps):
                 cands = []
+                may_be_empty = False          # some admissible rounding of the bounds leaves the cell without a pixel
                 for a in {math.floor(x * sp), math.ceil(x * sp)}:
                     for b in {math.floor((x + 1) * sp), math.ceil((x + 1) * sp)}:
                         for c in {math.floor(y * sp), math.ceil(y * sp)}:
                             for d in {math.floor((y + 1) * sp), math.ceil((y + 1) * sp)}:
+                                if not (b > a and d > c):
+                                    may_be_empty = True
                                 if b > a and d > c:
                                     cands.append(float(m64[a:b, c:d].mean()))
                                     cands.append(float(mask[a:b, c:d].mean()))
                 key = (x * sp, y * sp)
+                if not cands:
+                    ctx.require(key not in got, "cell %s contains no pixel for any rounding of its bounds (mask %dx%d, %d sub-apertures) but was selected with fill %r at threshold %r" % (key, size, size, subaps, got.get(key), t))
+                    continue
                 if key in got:
                     ctx.require(any(abs(got[key] - c_) <= 1e-12 * (1 + abs(c_)) for c_ in cands), "fill %r of cell %s is not the mean of any admissible cell rectangle" % (got[key], key))
                     ctx.require(got[key] >= t, "active cell %s has fill %r < threshold %r" % (key, got[key], t))
-                else:
+                elif not may_be_empty:
                     ctx.require(any(c_ < t for c_ in cands), "cell %s with every admissible mean >= threshold %r was not selected" % (key, t))
     # monotone shrink in the threshold; fills within [t, 1]
     t2 = case["t2"]
     lo, hi = min(t, t2), max(t, t2)
-    clo = wfslib.findActiveSubaps(subaps, maskc, lo)
-    chi = wfslib.findActiveSubaps(subaps, maskc, hi)
+    with _w.catch_warnings():
+        _w.simplefilter("ignore")
+        clo = wfslib.findActiveSubaps(subaps, maskc, lo)
+        chi = wfslib.findActiveSubaps(subaps, maskc, hi)
     slo = {tuple(map(float, c)) for c in np.asarray(clo).reshape(-1, 2)}
     shi = {tuple(map(float, c)) for c in np.asarray(chi).reshape(-1, 2)}
     ctx.require(shi <= slo, "active set does not shrink monotonically with the threshold (%r -> %r)" % (lo, hi))
